@@ -191,7 +191,8 @@ def run_case(spec):
         num_eig = min(ncls - 1, d)
         for name, basis_opt, nbs in (('SCML', 'triplet_diffs', (d, 2 * d + 1, 3 * d, 5 * d)),
                                      ('SCML_Supervised', 'triplet_diffs', (d, 2 * d + 1, 4 * d)),
-                                     ('SCML_Supervised', 'lda', (2, d + 1, 2 * d + 2, 3 * d + 1, 2 * num_eig * 3))):
+                                     ('SCML_Supervised', 'lda', sorted({2, d + 1, 2 * d + 2, 3 * d + 1, 2 * num_eig * 3,
+                                                                     2 * d + 1, 3 * num_eig + 1, 5 * num_eig + (num_eig - 1)}))):   # incl. n_basis % num_eig != 0
             for nb in nbs:
                 for seed in (0, 1, 2):
                     kw = dict(basis=basis_opt, n_basis=int(nb), max_iter=4, output_iter=2, batch_size=2, random_state=seed)
